@@ -295,7 +295,7 @@ Definition lstep (p : list ltable) (o : op) : lres :=
       | None => LSkip
       | Some t =>
           let has n := match lookup n (l_names t) with Some _ => true | None => false end in
-          let d := k_rename_decision (String.eqb old new) (has old) (has new) ident in
+          let d := k_rename_decision (String.eqb old new) (has old) (has new) true ident false in
           if d =? 0 then LUpd ti t
           else if d =? 1 then LErr
           else LUpd ti {| l_fam := l_fam t; l_rowid := l_rowid t;
